@@ -59,7 +59,7 @@ CHECKS = {
     "C03": {
         "groups": [{
             "pkg": BS, "funcs": ["VerifC03Forged", "VerifC03LocalWrite"],
-            "covers": {"VerifC03Forged": ["as-head", "as-ancestor", "id-swap"], "VerifC03LocalWrite": ["allowed", "denied"]},
+            "covers": {"VerifC03Forged": ["as-head", "as-ancestor", "as-foreign-ref", "id-swap"], "VerifC03LocalWrite": ["allowed", "denied"]},
         }, {"pkg": ACI, "funcs": ["VerifC03CanAppend"], "covers": {"VerifC03CanAppend": ["decided"]}},
            {"pkg": ACS, "funcs": ["VerifC03CanAppend"], "covers": {"VerifC03CanAppend": ["decided"]}},
            {"pkg": ACO, "funcs": ["VerifC03CanAppend"], "covers": {"VerifC03CanAppend": ["decided"]}}],
